@@ -509,7 +509,6 @@ pub trait Dut {
     fn size(&self) -> (u32, u32);
     fn bbox(&self) -> (i32, i32, u32, u32);
     fn state(&self) -> DState;
-    fn bus_last(&mut self) -> Option<Option<u16>>;
     fn c666(&self) -> bool;
     fn fb(&self) -> (u16, u16);
 }
@@ -596,10 +595,6 @@ where
             madctl: madctl_byte(m),
             sleeping: s,
         }
-    }
-    fn bus_last(&mut self) -> Option<Option<u16>> {
-        // SAFETY: read-only peek through the verification hook; nothing is sent
-        unsafe { self.dcs() }.bus_last()
     }
     fn c666(&self) -> bool {
         M::ColorFormat::BITS666
